@@ -429,7 +429,7 @@ class Checker:
         self.violations = {}
         self.current = None             # replayable description of the top-level input being run
         self.depth = 0
-        self.stats = {'projections': 0, 'requests_kept': 0, 'bounds_checked': 0, 'nested': 0, 'retro': 0}
+        self.stats = {'projections': 0, 'requests_kept': 0, 'bounds_checked': 0, 'nested': 0}
         self.samples = []
         self.work = [0]
         self.collect = None             # debugging aid: every distinct violation signature
@@ -566,7 +566,8 @@ class Checker:
         sigma.update({names[i]: nargs[i] for i in range(n)})
         fails = []
         # input class of a (bound) failure, part of the check name: is the offending argument the caller's request, derived
-        # from a request through bare-variable bounds, or the helper's own choice; were there requests / projection requests
+        # from a request through bare-variable bounds, or the helper's own choice; were there requests / projection
+        # requests
         flavour = '' if not requested else '+proj' if any(v[0] in ('W', '*') for v in outer.values()) else '+req'
         comp = list(range(n))
         for i, np in enumerate(nparams):
@@ -602,7 +603,8 @@ class Checker:
             if a[0] == 'W' and r[0] not in ('W', '*') and key(a[2]) == key(r):
                 self.stats['requests_kept'] += 1
                 continue                      # wrapped; whether the projection is permitted is the variance clause
-            fails.append(('kept/' + ('projection-request' if r[0] in ('W', '*') else 'plain-request'), i, 'requested %s := %s but the result has %s' % (names[i], show(r), show(a))))
+            fails.append(('kept/' + ('projection-request' if r[0] in ('W', '*') else 'plain-request'), i,
+                          'requested %s := %s but the result has %s' % (names[i], show(r), show(a))))
         trivial = not (req or ec is not None or any(np[3] is not None or np[2] != INV for np in nparams))
         ikey = (api, con_name, tuple(nparams), tuple(sorted((i, key(r)) for i, r in req.items())),
                 None if ec is None else tuple(sorted((k.name, tuple(v)) for k, v in ec)), for_tc, dis,
@@ -613,7 +615,7 @@ class Checker:
             if not trivial:
                 self.nontrivial.add(hash(ikey))
             return
-        if req:
+        if requested:
             w = self.witness(nparams, names, req, outer, pool)
             if w is None:
                 self.out_of_domain += 1
@@ -1007,7 +1009,8 @@ def make_input(world, api, name, params, pool, pre, vc, flags, dis, rseed, for_t
         pre = list(pre or [])
         for v in need:
             if not any(nm == v for nm, _ in pre):
-                pre.append([v, ['B', 'C', ['out', 'B'], ['in', 'B'], ['Foo', 'String']][rseed % 5] if v == 'K' else 'Integer'])
+                kvals = ['B', 'C', ['out', 'B'], ['in', 'B'], ['Foo', 'String']]
+                pre.append([v, kvals[rseed % 5] if v == 'K' else 'Integer'])
     return dict(kind='synthetic', world=world, api=api, name=name, params=params, pool=pool, pre=pre, vc=vc,
                 flags=flags, dis=list(dis), rseed=rseed, for_tc=for_tc)
 
@@ -1162,7 +1165,8 @@ GEN_SEEDS = {'quick': {'kotlin': [2, 4, 5, 8, 9, 11, 14, 15, 19, 23], 'java': [0
                        'scala': [0, 2, 3, 4, 7, 11], 'groovy': [0, 3, 4, 7, 10, 11]},
              'thorough': {'kotlin': list(range(80)), 'java': list(range(80)), 'scala': list(range(80)),
                           'groovy': list(range(40))}}
-WORK_BUDGET = 150000     # objects deep-copied (src.ir.types, src.ir.ast, generator) per program before the generation is cut off
+# objects deep-copied (src.ir.types, src.ir.ast, generator) per program before the generation is cut off; part of the input
+WORK_BUDGET = {'quick': 40000, 'thorough': 150000}
 
 
 class BudgetExceeded(BaseException):
@@ -1173,12 +1177,12 @@ def generator_inputs(tier, seed):
     for lang, seeds in GEN_SEEDS[tier].items():
         for i, s in enumerate(seeds):
             dis = DIS_MENU[i % 3] if i >= 3 else DIS_MENU[0]
-            yield dict(kind='generator', language=lang, seed=s, dis=list(dis))
+            yield dict(kind='generator', language=lang, seed=s, dis=list(dis), budget=WORK_BUDGET[tier])
     extra = 2 if tier == 'quick' else 30
     rnd = _r.Random(seed)
     for i in range(extra):
         yield dict(kind='generator', language=['kotlin', 'java', 'scala'][i % 3], seed=1000 + rnd.randrange(100000),
-                   dis=list(DIS_MENU[i % 3]))
+                   dis=list(DIS_MENU[i % 3]), budget=WORK_BUDGET[tier])
 
 
 def run_generator(E, chk, inp):
@@ -1198,13 +1202,14 @@ def run_generator(E, chk, inp):
     old = sys.getrecursionlimit()
     sys.setrecursionlimit(max(old, 3000))
     work = [0]
+    budget = inp.get('budget', WORK_BUDGET['thorough'])
     real_dc = copy.deepcopy
 
     def dc(x, memo=None):
         memo = {} if memo is None else memo
         r = real_dc(x, memo)
         work[0] += len(memo)
-        if work[0] > WORK_BUDGET:
+        if work[0] > budget:
             raise BudgetExceeded()
         return r
     patched = [E.tp, E.ast, gen]          # every module of the generator path that imports deepcopy by name
@@ -1241,7 +1246,8 @@ RULE = (
     'Contra<in .>, Pair<.,String>, Foo<Foo<.>>, Pair<T1,T2> (backward references only; forward / F-bounded references are '
     'outside this bound); declared variance: all invariant or one parameter out/in; 6 pools (class declarations incl. '
     'abstract / interface / generic ones, Kotlin and Java builtins incl. primitives, a type-variable-only pool, a '
-    'Generator.get_types-like pool with bare constructors); pre-assignments: none, {}, every single request out of 18 values '
+    'Generator.get_types-like pool with bare constructors); pre-assignments: none, {}, every single request out of 18 '
+    'values '
     '(plain, parameterized, out/in projections, type variables, Nothing), pairs of requests, requests for enclosing-scope '
     'variables (a bare enclosing-scope bound is always pre-assigned: precondition of the helpers); variance maps None, {}, '
     'all-in, all-out, all-off, all-on, first-on, last-off; options enable_pecs / disable_variance_functions / '
@@ -1249,7 +1255,7 @@ RULE = (
     'utils.random.r.seed(k). quick = a fixed stratified subsample of this product (strides in SIZES) + 4000 '
     'VERIF_SEED-random points, thorough = denser strides + 150000 random points. '
     'GENERATOR: every call made while generating and type-overwriting the programs of the fixed (language, seed, cfg.dis) '
-    'list (+ VERIF_SEED-random seeds); a deterministic work guard (%d objects '
+    'list (+ VERIF_SEED-random seeds); a deterministic work guard (%r objects '
     'deep-copied by the generator path) cuts off the rare very long generations (counted). '
     'ORACLE: specs/inst_ref.py Ref.sub, a declarative relation read from the declarations and extended to type variables '
     '(X <: T iff X == T or bound(X) <: T); never the repository\'s is_subtype / == / substitution. A projection argument '
